@@ -1044,6 +1044,7 @@ class C08(Base):
                         hi = min(a["pairs"][-1][0], b["pairs"][-1][0])
                         cats = set()
                         both_ = set(a["pairs"]) & set(b["pairs"])
+                        left_, right_ = (a, b) if a["pairs"][0][0] <= b["pairs"][0][0] else (b, a)
                         for m_ in missing:
                             if m_ in nonfirst:
                                 cats.add("non-first-segment-dropped")
@@ -1051,6 +1052,10 @@ class C08(Base):
                                 cats.add("pair-of-both-parts-dropped")     # no cut can justify losing a pair both parts report
                             elif lo <= m_[0] <= hi:
                                 cats.add("cut-inside-the-overlap")
+                            elif m_ in set(left_["pairs"]) and m_[0] > right_["pairs"][-1][0]:
+                                # the part that starts first on the reference encloses the other one: its conflicting sub-run
+                                # runs to its own end, so the single cut also removes its tail beyond the other part
+                                cats.add("tail-of-the-enclosing-part-cut")
                             else:
                                 cats.add("unexplained")
                         cause = "+".join(sorted(cats)) or "unexplained"
